@@ -296,4 +296,62 @@ def fnDistinctKeys : Stmt → Bool
   | _ => false
 
 
+
+/-! ### Lexical containment (the specification of `GraphBuilder.owners`, see `Proofs/C05Owners.lean`) -/
+
+def tagAll (ns : List Nat) (act : List Nat) : List (NodeId × List Nat) := ns.map (fun n => (n, act))
+
+mutual
+def ownSpec (act : List Nat) : Stmt → List (NodeId × List Nat)
+  | .functionDef i _ _ _ _ _ _ => [(i, act)]
+  | .classDef i .. => [(i, act)]
+  | .ret i v => tagAll (lamsL v ++ [i]) act
+  | .raise i e c => tagAll ((lamsL e ++ lamsL c) ++ [i]) act
+  | .break_ i => [(i, act)]
+  | .continue_ i => [(i, act)]
+  | .if_ i test body orelse =>
+      tagAll (test.kidLams ++ [test.id]) (act ++ [i]) ++ (ownSpecL (act ++ [i]) body ++ ownSpecL (act ++ [i]) orelse)
+  | .while_ i test body orelse =>
+      tagAll (test.kidLams ++ [test.id]) (act ++ [i]) ++ (ownSpecL (act ++ [i]) body ++ ownSpecL (act ++ [i]) orelse)
+  | .for_ i _ iter body orelse extra _ =>
+      tagAll (iter.kidLams ++ [iter.id]) (act ++ [i]) ++
+        (tagAll (withItemNodes (extra.take 1)) (act ++ [i]) ++ (ownSpecL (act ++ [i]) body ++ ownSpecL (act ++ [i]) orelse))
+  | .with_ _ items body _ => tagAll (withItemNodes items) act ++ ownSpecL act body
+  | .try_ i body handlers orelse final =>
+      ownSpecL (act ++ [i]) body ++ (ownSpecL (act ++ [i]) orelse ++ (ownSpecL (act ++ [i]) handlers ++ ownSpecL (act ++ [i]) final))
+  | .handler i ty _ body => tagAll (lamsL ty) (act ++ [i]) ++ ownSpecL (act ++ [i]) body
+  | .other .. => []
+  | s => tagAll (s.headLams ++ [s.id]) act
+def ownSpecL (act : List Nat) : List Stmt → List (NodeId × List Nat)
+  | [] => []
+  | s :: ss => ownSpec act s ++ ownSpecL act ss
+end
+
+mutual
+/-- ids of the statements that call `begin_statement` -/
+def ownerIds : Stmt → List Nat
+  | .if_ i _ body orelse => i :: (ownerIdsL body ++ ownerIdsL orelse)
+  | .while_ i _ body orelse => i :: (ownerIdsL body ++ ownerIdsL orelse)
+  | .for_ i _ _ body orelse _ _ => i :: (ownerIdsL body ++ ownerIdsL orelse)
+  | .with_ _ _ body _ => ownerIdsL body
+  | .try_ i body handlers orelse final => i :: (ownerIdsL body ++ (ownerIdsL orelse ++ (ownerIdsL handlers ++ ownerIdsL final)))
+  | .handler i _ _ body => i :: ownerIdsL body
+  | _ => []
+def ownerIdsL : List Stmt → List Nat
+  | [] => []
+  | s :: ss => ownerIds s ++ ownerIdsL ss
+end
+
+
+/-- The ids of the if/while/for/try/except statements of the function are pairwise distinct (serialiser ids are). -/
+def fnDistinctOwnerIds : Stmt → Bool
+  | .functionDef _ _ _ body _ _ _ => nodupB (ownerIdsL body)
+  | _ => false
+
+/-- Lexical containment for the whole function: the entry nodes are contained in no statement. -/
+def fnOwnSpec : Stmt → List (NodeId × List Nat)
+  | .functionDef _ _ args body _ _ _ => tagAll (args.kidLams ++ [args.id]) [] ++ ownSpecL [] body
+  | _ => []
+
+
 end Malt.Cfg
